@@ -123,7 +123,7 @@ def predictor_oracle(ctx, rep):
     from bingo.evaluation.evaluation import Evaluation
     from bingo.evolutionary_algorithms.age_fitness import AgeFitnessEA
     rng = ctx.rng
-    for trial in range(ctx.n(3, 25)):
+    for trial in range(ctx.n(6, 30)):
         np.random.seed(rng.randrange(2 ** 31))
         n = rng.choice([30, 60])
         x = np.linspace(-2, 2, n).reshape(-1, 1)
@@ -138,12 +138,26 @@ def predictor_oracle(ctx, rep):
         hof = HallOfFame(4)
         with warnings.catch_warnings():
             warnings.simplefilter("ignore")
+            attach = ["constructor", "assigned later", "via SerialArchipelago"][trial % 3]
             isl = FitnessPredictorIsland(ea, gen, 12, predictor_population_size=4, predictor_update_frequency=rng.choice([2, 3]),
-                                         predictor_size_ratio=0.3, predictor_computation_ratio=0.2, trainer_population_size=3,
-                                         trainer_update_frequency=rng.choice([2, 4]), hall_of_fame=hof)
+                                         predictor_size_ratio=0.3, predictor_computation_ratio=rng.choice([0.2, 0.8]), trainer_population_size=3,
+                                         trainer_update_frequency=rng.choice([2, 4]), hall_of_fame=hof if attach == "constructor" else None)
+            arch = None
+            if attach == "assigned later":
+                isl.hall_of_fame = hof
+            elif attach == "via SerialArchipelago":
+                arch = SerialArchipelago(isl, num_islands=2, hall_of_fame=hof)
+            rep.count("predictor_hof_attached", attach)
             truth = ExplicitRegression(training_data=full)
-            for g in range(ctx.n(4, 10)):
-                isl.evolve(1)
+            for g in range(ctx.n(5, 10)):
+                (arch or isl).evolve(1)
+                if arch is not None:
+                    for entry in arch.hall_of_fame:
+                        w = truth(entry.copy())
+                        if not (entry.fitness == w or abs(entry.fitness - w) <= 1e-12 * max(1, abs(w))):
+                            rep.violate(f"archipelago of predictor islands: hall-of-fame entry carries {entry.fitness}, full-data fitness is {w}",
+                                        "C15:predicted-fitness-in-hof", {"trial": trial, "generation": g, "attach": attach})
+                    isl = arch.islands[0]
                 best = isl.get_best_individual()
                 want = truth(best.copy())
                 rep.case(("predictor", trial, g), True)
